@@ -87,8 +87,9 @@ def check(tier='quick', seed=0):
     survey, models = setup(seed)
     refs = [reference(survey, m) for m in models]
     rng = np.random.default_rng(seed + 17)
-    nseq, maxlen = (19, 5) if tier == 'quick' else (83, 8)
-    fixed = [['misfit', 'file_h5'], ['gradient', 'file_npz'], ['misfit', 'file_json', 'gradient'], ['gradient', 'clean_keepresults', 'model_update'], ['gradient', 'copy_results', 'model_update'], ['compute', 'file_h5', 'gradient'], ['misfit', 'file_h5', 'clean_computed', 'misfit'], ['get_efield', 'misfit', 'gradient'], ['misfit', 'jtvec', 'gradient'], ['gradient', 'clean_computed', 'compute'], ['misfit', 'clean_keepresults', 'gradient'],
+    nseq, maxlen = (23, 5) if tier == 'quick' else (87, 8)
+    fixed = [['misfit', 'file_h5'], ['gradient', 'file_npz'], ['misfit', 'file_json', 'gradient'], ['get_efield', 'dict'], ['get_efield', 'file_npz', 'gradient'],
+             ['misfit', 'dict', 'model_update'], ['gradient', 'file_h5', 'model_update'], ['gradient', 'clean_keepresults', 'model_update'], ['gradient', 'copy_results', 'model_update'], ['compute', 'file_h5', 'gradient'], ['misfit', 'file_h5', 'clean_computed', 'misfit'], ['get_efield', 'misfit', 'gradient'], ['misfit', 'jtvec', 'gradient'], ['gradient', 'clean_computed', 'compute'], ['misfit', 'clean_keepresults', 'gradient'],
              ['gradient', 'model_update', 'compute'], ['gradient', 'copy', 'model_update'], ['compute', 'misfit', 'gradient', 'clean_computed', 'get_efield']]
     cases = 0
     for k in range(nseq):
